@@ -460,3 +460,20 @@ Proof.
   - apply wf_set_colour; exact H.
   - exact H.
 Qed.
+
+(* ---------------- combined statements used by Properties_C19.v ---------------- *)
+
+Theorem clear_attr_spec p a : lookup (clear_attr p a) a = None /\
+  forall a', a <> a' -> lookup (clear_attr p a) a' = lookup p a'.
+Proof. split; [exact (clear_attr_at p a)|exact (clear_attr_frame p a)]. Qed.
+
+Theorem clear_spec p g a : lookup (clear p) a = None /\ lookup (pen_new g) a = None.
+Proof. split; [exact (clear_all p a)|exact (new_empty g a)]. Qed.
+
+Theorem clone_spec orig g : wf orig ->
+  equiv (clone orig g) orig = true /\ forall a, lookup (clone orig g) a = lookup orig a.
+Proof. intros H. split; [exact (clone_equiv orig g H)|intros a; exact (clone_lookup orig g a H)]. Qed.
+
+Theorem equiv_equivalence : (forall x, equiv x x = true) /\ (forall x y, equiv x y = equiv y x) /\
+  (forall x y z, equiv x y = true -> equiv y z = true -> equiv x z = true).
+Proof. split; [exact equiv_refl|split; [exact equiv_sym|exact equiv_trans]]. Qed.
